@@ -101,6 +101,21 @@ impl FunBuilder {
   }
 }
 
+#[cfg(feature = "verif")]
+impl FunBuilder {
+  pub fn verif_max_slots(&self) -> i32 {
+    self.max_slots
+  }
+
+  pub fn verif_arity(&self) -> Arity {
+    self.arity
+  }
+
+  pub fn verif_module_id(&self) -> usize {
+    self.module.id()
+  }
+}
+
 impl FunBuilder {
   /// Build a final immutable Fun from this builder
   pub fn build(self, chunk: Chunk) -> Fun {
